@@ -42,7 +42,11 @@ def floors(tier):
 def plan(tier, seed):
     n, per = (560, 8) if tier == "quick" else (32000, 25)
     base = seed * 1000003
-    return [{"gen": "close", "seeds": [base + i + k for k in range(per)]} for i in range(0, n, per)]
+    out = [{"gen": "close", "seeds": [base + i + k for k in range(per)]} for i in range(0, n, per)]
+    nsf = 6 if tier == "quick" else 60
+    for i in range(nsf):
+        out.insert(i * 5, {"gen": "server_first", "seed": base + 700000 + i, "cases": 40})
+    return out
 
 
 def gen_case(seed):
@@ -82,12 +86,103 @@ def gen_case(seed):
     return sc
 
 
+def server_first(batch, res):
+    """A server connection whose first datagram(s) are not acceptable (garbage, short header, Initial in a
+    datagram below 1200 bytes, unsupported version, stray Version Negotiation / Retry / Handshake packet):
+    from that first datagram on it must name a finite timer, and it must terminate exactly once by itself
+    (idle deadline) when nothing acceptable follows."""
+    import math
+
+    from aioquic.quic.connection import QuicConnection
+
+    from ..common import exc_signature, exc_witness
+    from ..simnet import CLIENT_ADDR, SERVER_ADDR, make_configs
+
+    rng = random.Random("c09sf/%s" % batch["seed"])
+    for ci in range(batch["cases"]):
+        idle = rng.choice([0.5, 2.0, 10.0])
+        ccfg, scfg = make_configs({"idle_server": idle, "versions_client": rng.choice([["v1"], ["v2"]])})
+        client = QuicConnection(configuration=ccfg)
+        client.connect(SERVER_ADDR, now=0.0)
+        first = client.datagrams_to_send(now=0.0)[0][0]
+        server = QuicConnection(configuration=scfg, original_destination_connection_id=client.original_destination_connection_id)
+        kind = rng.choice(["garbage", "short-header", "truncated-initial", "unsupported-version", "version-negotiation", "retry", "handshake-type", "empty", "one-byte"])
+        if kind == "garbage":
+            d = rng.randbytes(rng.choice([5, 40, 1200]))
+        elif kind == "short-header":
+            d = bytes([0x40 | rng.getrandbits(5)]) + rng.randbytes(rng.choice([20, 60]))
+        elif kind == "truncated-initial":
+            d = first[: rng.choice([100, 600, 1199])]
+        elif kind == "unsupported-version":
+            d = first[:1] + bytes.fromhex("1a2a3a4a") + first[5:]
+        elif kind == "version-negotiation":
+            d = first[:1] + bytes(4) + first[5:40]
+        elif kind == "retry":
+            t = 3 if first[1:5] == b"\x00\x00\x00\x01" else 0
+            d = bytes([0xC0 | (t << 4)]) + first[1:60]
+        elif kind == "handshake-type":
+            t = 2 if first[1:5] == b"\x00\x00\x00\x01" else 3
+            d = bytes([(first[0] & 0xCF) | (t << 4)]) + first[1:]
+        elif kind == "empty":
+            d = b""
+        else:
+            d = b"\xc3"
+        follow = rng.random() < 0.3  # sometimes the genuine Initial follows after a while
+        case = {"gen": "server_first", "seed": batch["seed"], "cases": ci + 1}
+        res.evaluations += 1
+        now = 0.001
+        terminated = 0
+        steps = 0
+        try:
+            server.receive_datagram(d, CLIENT_ADDR, now=now)
+            while steps < 80:
+                steps += 1
+                while True:
+                    ev = server.next_event()
+                    if ev is None:
+                        break
+                    if type(ev).__name__ == "ConnectionTerminated":
+                        terminated += 1
+                server.datagrams_to_send(now=now)
+                t = server.get_timer()
+                res.count("timer_evaluations")
+                if terminated:
+                    if terminated > 1:
+                        res.violation("close:terminated-twice", "server reported termination %d times after a rejected first datagram (%s)" % (terminated, kind), case, None)
+                    break
+                if t is None or (isinstance(t, float) and (math.isnan(t) or math.isinf(t))):
+                    res.violation("timer:not-finite:None:server-first-datagram-rejected", "server connection handed a first datagram that it rejects (%s, %d bytes) is live (no termination reported) but get_timer() returned %r" % (kind, len(d), t), case, {"kind": kind})
+                    break
+                if follow and steps == 1:
+                    now = min(t, now + 0.05)
+                    server.receive_datagram(first, CLIENT_ADDR, now=now)
+                    follow = False
+                    res.count("server_first_followed_by_genuine_initial")
+                    continue
+                now = max(now, t)
+                server.handle_timer(now=now)
+            else:
+                res.violation("timer:no-termination-within-80-timer-firings:server-first-datagram-rejected", "server never terminated (%s)" % kind, case, None)
+        except Exception as exc:
+            res.violation(exc_signature(exc, "api:"), "server API raised %r after a rejected first datagram (%s)" % (exc, kind), case, exc_witness(exc))
+        res.count("server_first_" + kind)
+        res.count("server_first_cases")
+        if terminated == 1:
+            res.count("endpoints_terminated")
+            res.nontrivial.add("sf:%s:%s:%s" % (kind, idle, first[1:5].hex()))
+    res.sample({"gen": "server_first", "seed": batch["seed"], "cases": batch["cases"]}, limit=1)
+
+
 def run_batch(batch):
     from .. import monitors
     from ..simprops import run_case
 
     res = Result()
     t0 = time.time()
+    if batch.get("gen") == "server_first":
+        server_first(batch, res)
+        res.count("cpu_s", round(time.time() - t0, 2))
+        return res.as_dict()
     for seed in batch["seeds"]:
         sc = gen_case(seed)
         on_time = sc["lateness"] == 0.0
